@@ -181,4 +181,40 @@ def minkowskiRayCast {S : Type} (ops : SimplexOps K S) (supp : V3 K → V3 K) (b
     let pr := ops.project simplex
     gjkLoop ops supp big dim u len maxToi 100 ⟨pr.1, pr.2, big, 0, dir, ray.o, false, true⟩
 
+/-- result of the support-map wrapper with ghost information: `recast` = the non-solid re-cast was taken,
+`clean1` / `clean2` = ghost flags of the first / second `minkowski_ray_cast` -/
+structure SmRes (K : Type) where
+  res : Option (Hit3 K)
+  recast : Bool
+  clean1 : Bool
+  clean2 : Bool
+
+/-- `local_ray_intersection_with_support_map_with_params(shape, simplex, ray, max_time_of_impact, solid)`
+(`ray_support_map.rs`; tree with fixes/C04-support-map-nonsolid-recast.diff, i.e. the re-cast runs along the UNIT direction
+and the final time is divided by `|dir|`).  `gjk::cast_local_ray(shape, …)` = `minkowskiRayCast` with `supp` = the shape's
+`local_support_point`.  The initial `simplex.reset(…)` of the wrapper is dead code (`minkowski_ray_cast` resets again).
+Feature id: `Unknown` (kind 2). -/
+def localRayIntersectionWithSupportMap {S : Type} (ops : SimplexOps K S) (supp : V3 K → V3 K) (big : K) (dim : Nat)
+    (ray : Ray3 K) (maxToi : K) (solid : Bool) : SmRes K :=
+  let r1 := minkowskiRayCast ops supp big dim ray maxToi
+  match r1.res with
+  | none => ⟨none, false, r1.clean, true⟩
+  | some (toi, normal) =>
+    if !solid && neq toi 0 then
+      -- the ray is inside of the shape
+      let dirNorm := ray.d.norm
+      let ndir := ray.d.sdiv dirNorm
+      let sp := supp ndir
+      let eps : K := lit 1 1000
+      let shift := (sp.sub ray.o).dot ndir + eps
+      let newRay : Ray3 K := ⟨ray.o.add (ndir.smul shift), ndir.neg⟩
+      let r2 := minkowskiRayCast ops supp big dim newRay (shift + eps)
+      match r2.res with
+      | none => ⟨none, true, r1.clean, r2.clean⟩
+      | some (toi2, outwardNormal) =>
+        let t := (shift - toi2) / dirNorm
+        if t ≤ maxToi then ⟨some { toi := t, n := outwardNormal.neg, fkind := 2, fidx := 0 }, true, r1.clean, r2.clean⟩
+        else ⟨none, true, r1.clean, r2.clean⟩
+    else ⟨some { toi := toi, n := normal, fkind := 2, fidx := 0 }, false, r1.clean, true⟩
+
 end Model
